@@ -266,6 +266,45 @@ def run(chk):
     chk.floor("R-COL", "text-mode print_char roots", len(roots), 10)
     reach = g.reachable(roots)
     bodies = [bid for bid in sorted(reach) if f.bodies[bid].kind in ("fn", "method", "closure")]
+    # ------------------------------------------------------------------ R-ORIGIN: origin mode (DECOM) cannot be switched on
+    # The WithinMargins arms of limit_caret_pos / upper_left_position derive rows from the margins, which no setter validates.
+    # They are dead as long as nothing stores OriginMode::WithinMargins: checked here, crate wide, on every run.
+    nstore = 0
+    origin_ok = True
+    for b in f.bodies.values():
+        if b.kind not in ("fn", "method", "closure"):
+            continue
+        ebo = None
+        for bi, k, s_ in b.stmts():
+            if s_["k"] != "assign":
+                continue
+            proj = s_["p"].get("p", [])
+            direct = bool(proj) and proj[-1] != "*" and proj[-1][0] == "f" and proj[-1][2] == "origin_mode"
+            agg = s_["rv"]["k"] == "agg" and (s_["rv"].get("adt") or "").endswith("terminal_state::TerminalState")
+            if not (direct or agg):
+                continue
+            ebo = ebo or ExprBuilder(b)
+            if direct:
+                val = show(ebo.rvalue(s_["rv"]))
+            else:
+                adt = f.adts.get("terminal_state::TerminalState")
+                names = [x[0] for x in adt["variants"][0]["fields"]] if adt else []
+                ops = s_["rv"].get("ops", [])
+                val = show(ebo.operand(ops[names.index("origin_mode")])) if "origin_mode" in names and names.index("origin_mode") < len(ops) else "?"
+            nstore += 1
+            # a copy of an existing origin mode (derived Clone, struct update) introduces no new value
+            ok = ("WithinMargins" not in val) and ("UpperLeftCorner" in val or val.endswith(".origin_mode") or val.endswith(".origin_mode)"))
+            chk.obligation(ok)
+            origin_ok = origin_ok and ok
+            if not ok:
+                chk.finding("%s|origin-mode-store|%s" % (b.short(), val[:40]), rule="R-ORIGIN", where="%s:%s" % (b.file, s_["line"]), fn=b.short(),
+                            what="origin mode can be set to `%s`: the WithinMargins arms of limit_caret_pos / upper_left_position become live, and they place "
+                                 "the cursor by margins that no setter validates (CSI 0;0 r stores -1, CSI 1;9999 r a row below the screen)" % val[:60])
+    chk.floor("R-ORIGIN", "stores to TerminalState.origin_mode (field stores and struct literals)", nstore, 2)
+    # with no store of WithinMargins anywhere, the WithinMargins arm of every `match ..origin_mode` is dead: the analysis does not
+    # follow those edges (the arms derive rows from unvalidated margins and would otherwise taint the join after the match)
+    if origin_ok:
+        ip.infeasible = origin_dead_edges(f, bodies)
     ip.run_scope(bodies)
     # ------------------------------------------------------------------ every body honours its contract {clause} f {clause}
     nret = 0
@@ -285,7 +324,9 @@ def run(chk):
         # edges into the return block(s), through trivial forwarding blocks
         edges = []
         seen = set()
-        stack = list(b.exits)
+        # an exit block that itself stores to the cursor is judged at its terminator, not on the edges into it
+        own = [x for x in b.exits if any(s2["k"] == "assign" and "pos" in str(s2["p"]) for s2 in b.blocks[x]["stmts"])]
+        stack = [x for x in b.exits if x not in own]
         while stack:
             x = stack.pop()
             if x in seen:
@@ -305,9 +346,10 @@ def run(chk):
             ncontract += 1
             work = [(p, x, res.edge_states.get((p, x))) for (p, x) in edges]
             # a return block without incoming edges (single-block bodies) / reached directly: the state at its terminator
-            if not edges:
+            if not edges or own:
                 for bi, rst in res.ret_states:
-                    work.append((bi, bi, rst))
+                    if not edges or bi in own:
+                        work.append((bi, bi, rst))
             for (p, x, st) in work:
                 if st is None or st.bottom:
                     continue
@@ -398,7 +440,7 @@ def run(chk):
                             if proj[-2:-1] == ["pos"]:
                                 tgt = proj[-1]
                 clamps.append((bi, t, args, tgt))
-        chk.floor("R-CLAMP-SHAPE", "clamp calls in limit_caret_pos", len(clamps), 4)
+        chk.floor("R-CLAMP-SHAPE", "clamp calls in limit_caret_pos", len(clamps), 2)
         FV, FE, LE = "buffers::Buffer::get_first_visible_line()", "buffers::Buffer::get_first_editable_line()", "buffers::Buffer::get_last_editable_line()"
         HEIGHTS = ("terminal_state::TerminalState.size.height",)
         WIDTHS = ("terminal_state::TerminalState.size.width",)
@@ -425,39 +467,6 @@ def run(chk):
                 chk.finding("limit_caret_pos|clamp|%s|%s" % (tgt, show(args[2])[:60]), rule="R-CLAMP-SHAPE", where="%s:%s" % (lb.file, t["line"]), fn="limit_caret_pos",
                             what="the %s clamp is not %s: clamp(%s, %s, %s)" % (tgt, want, sx, show(args[1])[:50], show(args[2])[:70]))
         chk.sample("limit_caret_pos clamps: " + "; ".join("%s in [%s, %s]" % (tg, show(a[1])[:30], show(a[2])[:50]) for _, _, a, tg in clamps))
-    # ------------------------------------------------------------------ R-ORIGIN: origin mode (DECOM) cannot be switched on
-    # The WithinMargins arms of limit_caret_pos / upper_left_position derive rows from the margins, which no setter validates.
-    # They are dead as long as nothing stores OriginMode::WithinMargins: checked here, crate wide, on every run.
-    nstore = 0
-    for b in f.bodies.values():
-        if b.kind not in ("fn", "method", "closure"):
-            continue
-        ebo = None
-        for bi, k, s_ in b.stmts():
-            if s_["k"] != "assign":
-                continue
-            proj = s_["p"].get("p", [])
-            direct = bool(proj) and proj[-1] != "*" and proj[-1][0] == "f" and proj[-1][2] == "origin_mode"
-            agg = s_["rv"]["k"] == "agg" and (s_["rv"].get("adt") or "").endswith("terminal_state::TerminalState")
-            if not (direct or agg):
-                continue
-            ebo = ebo or ExprBuilder(b)
-            if direct:
-                val = show(ebo.rvalue(s_["rv"]))
-            else:
-                adt = f.adts.get("terminal_state::TerminalState")
-                names = [x[0] for x in adt["variants"][0]["fields"]] if adt else []
-                ops = s_["rv"].get("ops", [])
-                val = show(ebo.operand(ops[names.index("origin_mode")])) if "origin_mode" in names and names.index("origin_mode") < len(ops) else "?"
-            nstore += 1
-            # a copy of an existing origin mode (derived Clone, struct update) introduces no new value
-            ok = ("WithinMargins" not in val) and ("UpperLeftCorner" in val or val.endswith(".origin_mode") or val.endswith(".origin_mode)"))
-            chk.obligation(ok)
-            if not ok:
-                chk.finding("%s|origin-mode-store|%s" % (b.short(), val[:40]), rule="R-ORIGIN", where="%s:%s" % (b.file, s_["line"]), fn=b.short(),
-                            what="origin mode can be set to `%s`: the WithinMargins arms of limit_caret_pos / upper_left_position become live, and they place "
-                                 "the cursor by margins that no setter validates (CSI 0;0 r stores -1, CSI 1;9999 r a row below the screen)" % val[:60])
-    chk.floor("R-ORIGIN", "stores to TerminalState.origin_mode (field stores and struct literals)", nstore, 2)
     # ------------------------------------------------------------------ R-FV-SHAPE: first visible row = max(0, buffer height - terminal height)
     fvb = f.bodies.get("buffers::Buffer::get_first_visible_line")
     if chk.anchor(fvb is not None, "R-FV-SHAPE", "anchor missing: Buffer::get_first_visible_line"):
@@ -649,3 +658,45 @@ def run(chk):
     return chk.finish("Cursor invariant proven modularly ({I} f {I}) over %d bodies reachable from the 10 entry points; %d return paths of the entry "
                       "points checked; limit_caret_pos clamp shapes; %d cursor-row stores classified; fixed-grid reachability." % (len(bodies), nret, nstores),
                       reviewed=reviewed)
+
+
+def origin_dead_edges(f, bodies):
+    """{body id: {(block, successor)}}: switch edges taken only when a TerminalState.origin_mode is OriginMode::WithinMargins"""
+    adt = None
+    for k, v in f.adts.items():
+        if k.endswith("OriginMode") and v.get("kind") == "enum":
+            adt = v
+    if adt is None:
+        return {}
+    names = [v["name"] for v in adt["variants"]]
+    if "WithinMargins" not in names:
+        return {}
+    wm = names.index("WithinMargins")
+    out = {}
+    for bid in bodies:
+        b = f.bodies[bid]
+        for bi, blk in enumerate(b.blocks):
+            t = blk["term"]
+            if t["k"] != "switch":
+                continue
+            pj = t["discr"].get("move") or t["discr"].get("copy")
+            if pj is None or pj.get("p"):
+                continue
+            ds = b.defs.get(pj["l"], [])
+            if len(ds) != 1 or ds[0][1] == "term":
+                continue
+            rv = b.blocks[ds[0][0]]["stmts"][ds[0][1]]["rv"]
+            if rv["k"] != "discr":
+                continue
+            proj = rv["p"].get("p") or []
+            if not proj or proj[-1] == "*" or proj[-1][0] != "f" or proj[-1][2] != "origin_mode":
+                continue
+            listed = {v: tg for v, tg in t["targets"]}
+            dead = None
+            if wm in listed:
+                dead = listed[wm]
+            elif len(listed) == len(names) - 1 and t.get("otherwise") is not None:
+                dead = t["otherwise"]
+            if dead is not None and sum(1 for tg in list(listed.values()) + [t.get("otherwise")] if tg == dead) == 1:
+                out.setdefault(bid, set()).add((bi, dead))
+    return out
